@@ -3,6 +3,7 @@ package props
 import (
 	"bytes"
 	"encoding/base64"
+	"strings"
 	"testing"
 
 	"pgregory.net/rapid"
@@ -204,6 +205,15 @@ func runC03(sc *LifeScript) *sim.Outcome {
 	if o.Violation != "" {
 		return o
 	}
+	// "decipherable only with the session's DH secrets": a counter used twice under one key pair means two
+	// messages share a key stream and can be read against each other without any secret
+	for i, m := range s.Seen {
+		for _, is := range m.Issues {
+			if strings.Contains(is, "counter") {
+				return o.Fail("C03/keystream-reuse", "message #%d of %s: %s (AES-CTR key stream reused)", i, s.W.P[m.From].Name, is)
+			}
+		}
+	}
 	if controls > 0 && controlsFound < controls {
 		return o.Fail("C03/harness-control", "harness self-check: %d of %d texts sent in plaintext state were not found on the wire by the scanner", controls-controlsFound, controls)
 	}
@@ -257,7 +267,10 @@ func TestProp_C03_Leak(t *testing.T) {
 func TestProp_C03_Policies(t *testing.T) {
 	si, sn := sim.Shard()
 	life := []SOp{{K: "send", W: 0, L: 20}, {K: "flush"}, {K: "send", W: 1, L: 20}, {K: "flush"}, {K: "query", W: 0}, {K: "flush"},
-		{K: "send", W: 0, L: 20}, {K: "send", W: 1, L: 20}, {K: "flush"}, {K: "end", W: 1}, {K: "flush"}, {K: "send", W: 0, L: 20}, {K: "send", W: 1, L: 20},
+		{K: "send", W: 0, L: 20}, {K: "send", W: 1, L: 20}, {K: "flush"},
+		// two in a row from one side with an answer in between (messages overtaking each other exercise the counters)
+		{K: "send", W: 1, L: 20}, {K: "send", W: 1, L: 20}, {K: "dl", W: 1}, {K: "send", W: 0, L: 20}, {K: "dl", W: 1}, {K: "send", W: 0, L: 20}, {K: "flush"},
+		{K: "end", W: 1}, {K: "flush"}, {K: "send", W: 0, L: 20}, {K: "send", W: 1, L: 20},
 		{K: "flush"}, {K: "end", W: 0}, {K: "send", W: 0, L: 20}, {K: "flush"}}
 	step := 1
 	if !sim.Thorough() {
